@@ -34,6 +34,10 @@ LogsToStderr(o) == Exit(o) = 0 /\ "D" \in DOMAIN o
 \* who writes log lines: 0 = the tokenizer ([DET]), 1 = region saver ([SAVE]), 2 = player ([PLAY]), 3 = command ([COMMAND])
 LogWriters(o) == (IF "o" \in DOMAIN o THEN {1} ELSE {}) \cup (IF "E" \in DOMAIN o THEN {2} ELSE {}) \cup (IF "C" \in DOMAIN o THEN {3} ELSE {})
 Plots(o) == Exit(o) = 0 /\ "P" \in DOMAIN o               \* plot() gets the whole stream that was read, the API's detections, the -e threshold, the image name
+\* Deviation of the code, named rather than idealised away (observation O12): with -O AND -j the stream is not recorded (make_kwargs switches
+\* recording off whenever -O is given, counting on the stream saver to hold the data, but with -j the saver is an observer, not a reader), so
+\* the plotting step finds nothing to rewind and main() ends with an AttributeError -- after the files have been written.
+PlotCrashes(o) == Exit(o) = 0 /\ "P" \in DOMAIN o /\ "O" \in DOMAIN o /\ "j" \in DOMAIN o
 OutFormat(o) == IF "T" \in DOMAIN o THEN o["T"] ELSE "wav"   \* of the -O / -o files (their names end in .wav in the harness)
 (* time formats: a printed time is parsed into whole milliseconds W; the exact instant is num/den MILLISECONDS
    (for a detection at sample f of a stream at rate r: num = 1000 f, den = r) *)
